@@ -157,6 +157,8 @@ def check_seg(ctx, spec, seg, tag):
         (ex, ey), interior = ref_extremes_bezier(cpts)
         size = max(max(z.real for z in cpts) - min(z.real for z in cpts), max(z.imag for z in cpts) - min(z.imag for z in cpts))
         pos = max(abs(z) for z in cpts)
+    if size < 1e-9:
+        ctx.discard('segment far below the 1e-3 coordinate scale (squares underflow)')
     if interior:
         ctx.count('interior_extreme')
         ctx.nontrivial(key=spec)
